@@ -92,11 +92,13 @@ func VxC01Sync() {
 	}
 	// with the budget on, an incremental copy ends with the first commit frame:
 	// frames after it are as if they were not there yet
+	moreCommitted := false // committed frames the bounded copy left for the next round
 	if budget > 0 && !snapshot {
 		cut := make([]vxFrame, len(scanned))
 		copy(cut, scanned)
 		before := false
 		for i := range cut {
+			moreCommitted = vx.Or(moreCommitted, vx.And(before, scanned[i].commit != 0))
 			cut[i].commit = vx.IteU32(before, 0, cut[i].commit)
 			cut[i].pgno = vx.IteU32(before, 0, cut[i].pgno) // page 0 is never the witness page
 			before = vx.Or(before, scanned[i].commit != 0)
@@ -166,8 +168,12 @@ func VxC01Sync() {
 	// header arithmetic and the synced offset
 	vx.Assert("synced-offset-is-end-of-last-commit", res.newWALSize == WALHeaderSize+int64(start)*fs+nCommitted*fs)
 	walSize := int64(len(vx.FSReadFile(path + "-wal")))
-	vx.Assert("synced-to-end-flag", res.syncedToWALEnd == (res.newWALSize == walSize))
-	vx.Assert("limited-iff-budget-stopped-the-copy", res.limited == vx.And(budget > 0 && !snapshot, anyCommit))
+	// "synced to the end" is what later lets a shorter WAL pass for litestream's own
+	// checkpoint: it may only be claimed when true (not claiming it costs a snapshot)
+	vx.Assert("synced-to-end-claimed-only-at-the-end", vx.Implies(res.syncedToWALEnd, res.newWALSize == walSize))
+	// a round that leaves committed frames behind says so (DB.Sync loops on it; an
+	// extra round after a needless "limited" is harmless)
+	vx.Assert("round-that-leaves-commits-behind-reports-limited", vx.Implies(moreCommitted, vx.And(res.limited, vx.Not(res.syncedToWALEnd))))
 	vx.ObserveBool("snapshot", snapshot)
 }
 
